@@ -784,8 +784,10 @@ end Chess.Gen
                     return False
         except FileNotFoundError:
             pass
-        with open(path, "w", encoding="utf-8") as f:
+        tmp = path + ".tmp%d" % os.getpid()        # several checks may run at once: atomic replace
+        with open(tmp, "w", encoding="utf-8") as f:
             f.write(content)
+        os.replace(tmp, path)
         return True
 
     ch1 = write_if_changed(os.path.join(OUT, "Zobrist.lean"), zl)
@@ -859,8 +861,10 @@ def main():
         V.update(vals)
     os.makedirs(os.path.dirname(GEN_JSON), exist_ok=True)
     if not broken and not DRIFT:
-        with open(cache_path, "w") as f:
+        tmp = cache_path + ".tmp%d" % os.getpid()
+        with open(tmp, "w") as f:
             json.dump(cache, f)
+        os.replace(tmp, cache_path)
     emit(V, C, broken)
 
 
